@@ -70,10 +70,11 @@ def main():
     meta["detected"] = any(r["exit"] == 1 for r in results.values())
     d = os.path.join(VERIF, "seeded", sid)
     os.makedirs(d, exist_ok=True)
-    shutil.copy(patch, os.path.join(d, "patch.diff"))
-    shutil.copy(demo, os.path.join(d, "demo.rs"))
-    if os.path.isfile(os.path.join(mdir, "notes.md")):
-        shutil.copy(os.path.join(mdir, "notes.md"), os.path.join(d, "notes.md"))
+    if os.path.abspath(mdir) != os.path.abspath(d):
+        shutil.copy(patch, os.path.join(d, "patch.diff"))
+        shutil.copy(demo, os.path.join(d, "demo.rs"))
+        if os.path.isfile(os.path.join(mdir, "notes.md")):
+            shutil.copy(os.path.join(mdir, "notes.md"), os.path.join(d, "notes.md"))
     json.dump(meta, open(os.path.join(d, "meta.json"), "w"), indent=1)
     print("detected:", meta["detected"])
 
